@@ -129,7 +129,7 @@ class G:
             n = r.choice([-1, hi + 1, hi + 2])
             ok = False
         self.ops.append("mallocm %d %d %d %d" % (v, n, e, s))
-        if not self.h[s]:
+        if not self.h[s] or ssize == 0:                      # no source data: any non-negative size is fine
             ok = n >= 0
         if ok and n > 0:
             self.new(v, n * e, e)
@@ -435,7 +435,7 @@ def main(argv):
     if ck.replay:
         ck.correspond(hb, db, [read_replay(ck.replay)], label="replay", ubsan_is_violation=ub)
     else:
-        n = 1500 if ck.tier == "quick" else 40000
+        n = 1000 if ck.tier == "quick" else 30000
         hs = CORPUS + [gen_history(ck.rng) for _ in range(n)]
         ck.correspond(hb, db, hs, label="mem", ubsan_is_violation=ub, timeout=3000)
         # the region of the known finding F05 (uninitialised receiver): same correspondence and oracles, with
